@@ -389,7 +389,10 @@ structure ECtx where
   aliases : List (Str × Val)         -- compile-time aliases (`default`, `attrs`)
   repeats : List (Str × RepItem)     -- the RepeatDict
   pyBuiltins : List String           -- names of Python builtins (Gen)
-  macroNames : List Str := []        -- the macros the template defines
+  /-- the template whose code is running (0 = the one being rendered) -/
+  tid : Nat := 0
+  /-- the macro names every template defines, by template id -/
+  macroTable : List (Nat × List Str) := []
   deriving Inhabited
 
 structure ESt where
@@ -428,8 +431,8 @@ def resolveName (c : ECtx) (n : Str) : EM Val :=
     | some v => pure v
     | none =>
       if ns == "nothing" then pure .none
-      else if ns == "macros" then pure .macros
-      else if ns == "template" then pure .template_
+      else if ns == "macros" then pure (.macros c.tid)
+      else if ns == "template" then pure (.template_ c.tid)
       else if modelledFns.contains ns then pure (.fn ns)
       else if c.pyBuiltins.contains ns then emUnsupported "python builtin outside the subset"
       else emRaise "NameError" n
@@ -537,6 +540,9 @@ def lookupAttr (c : ECtx) (v : Val) (n : Str) : EM Val :=
   | .tuple _ =>
     if hasTypeAttr "tuple" n then emUnsupported "tuple method"
     else emRaise "TypeError" (lit "tuple indices must be integers or slices, not str")
+  | .template_ tid =>
+    -- `template.macros` (everything else of a template object is outside the model)
+    if n == lit "macros" then pure (.macros tid) else emUnsupported "template attribute"
   | _ => emUnsupported "attribute access on this value"
 
 /-- `KeyError.args[0]` as text -/
@@ -591,13 +597,14 @@ def subscript (c : ECtx) (v i : Val) : EM Val :=
       | some _ => pure (.repeatItem k)
       | none => do let r ← keyRepr c i; emRaise "KeyError" r
     | _ => emUnsupported "repeat key class"
-  | .macros =>
+  | .macros tid =>
     match i with
     | .str k =>
       -- `Macros.__getitem__`: `name.replace('-', '_')`, then `getattr(template, "_render_" + name)`
       let k' := k.map (fun ch => if ch == 45 then 95 else ch)
-      match c.macroNames.find? (fun n => n.map (fun ch => if ch == 45 then 95 else ch) == k') with
-      | some n => pure (.macro (some n))
+      let names := ((c.macroTable.find? (·.1 == tid)).map (·.2)).getD []
+      match names.find? (fun n => n.map (fun ch => if ch == 45 then 95 else ch) == k') with
+      | some n => pure (.macro tid (some n))
       | none => emRaise "KeyError" (lit "Macro does not exist: '" ++ k' ++ lit "'.")
     | _ => emUnsupported "macro key class"
   | _ => emUnsupported "subscript on this value"
